@@ -71,7 +71,7 @@ def enumerate_paths(cfg: CFG, start=None, *, limit=20000, goals=None) -> List[Li
             continue
         for s in cfg.g.successors(n):
             labels = cfg.g[n][s]["labels"]
-            if labels == {"back"}:
+            if "back" in labels:
                 # leaving the loop body: continue at the loop's 'done' successors
                 for s2 in cfg.g.successors(s):
                     l2 = cfg.g[s][s2]["labels"]
